@@ -912,6 +912,18 @@ impl PacketNumberFilter {
     }
 }
 
+#[cfg(feature = "quinn_rs_quinn_verif")]
+impl PacketNumberFilter {
+    /// a filter that never skips a packet number (what the test-only `disabled()` builds)
+    pub(super) fn verif_disabled() -> Self {
+        Self {
+            next_skipped_packet_number: u64::MAX,
+            prev_skipped_packet_number: None,
+            exponent: u32::MAX,
+        }
+    }
+}
+
 /// Ensures we can always fit all our ACKs in a single minimum-MTU packet with room to spare
 const MAX_ACK_BLOCKS: usize = 64;
 
